@@ -1005,7 +1005,7 @@ func (e *env) reads(tier string) []string {
 		sc := e.store.GetSnapshot(h.ts1)
 		hasLive := false
 		for _, t := range h.txns {
-			if t.kind == kLiveFinish {
+			if t.kind == kLiveFinish || t.kind == kPushable { // pushable ones are committed by the forward-move section
 				hasLive = true
 			}
 		}
@@ -1055,6 +1055,53 @@ func (e *env) reads(tier string) []string {
 		}
 		res = append(res, fmt.Sprintf("size=%d", sc.SnapCacheSize()))
 		lines = append(lines, fmt.Sprintf("CACHE\t%d\tprog\t%s\t=>\t%s", hid, strings.Join(ops, ";"), strings.Join(res, ";")))
+	}
+	// forward move over a commit (last section: it changes the world).  A snapshot meets the lock of a
+	// live, pushable transaction (min commit ts pushed, the transaction is remembered as "ignore"); the
+	// owner then commits the primary and leaves the secondary locks; the SAME snapshot object is moved
+	// FORWARD past the commit: it must stop ignoring that transaction (plain and pipelined snapshot),
+	// then moved back.
+	for i := range h.txns {
+		pt := &h.txns[i]
+		if pt.kind != kPushable || len(pt.keys) < 2 || pt.start > h.ts1 {
+			continue
+		}
+		nowPhys := oracle.GetPhysical(time.Now())
+		commitTS, tsF := oracle.ComposeTS(nowPhys+2000, 0), oracle.ComposeTS(nowPhys+4000, 0)
+		sA, sB := e.store.GetSnapshot(h.ts1), e.store.GetSnapshot(h.ts1)
+		sB.SetPipelined(tsAt(0, 1))
+		snaps := []*txnsnapshot.KVSnapshot{sA, sB}
+		names := []string{"fm", "fm-pipelined"}
+		for j, sn := range snaps {
+			if r.Intn(2) == 0 {
+				bgetL(names[j]+"-before", sn, h.ts1, allKeys)
+			} else {
+				for _, k := range pt.keys {
+					getL(names[j]+"-before", sn, h.ts1, k)
+				}
+			}
+		}
+		if err := e.mvcc.Commit(pt.keys[:1], pt.start, commitTS); err != nil {
+			break // e.g. the lock was resolved otherwise: no forward-move case in this history
+		}
+		// whoever reads first after the move meets the leftover secondary lock (and resolves it)
+		if r.Intn(2) == 0 {
+			snaps[0], snaps[1], names[0], names[1] = snaps[1], snaps[0], names[1], names[0]
+		}
+		for j, sn := range snaps {
+			sn.SetSnapshotTS(tsF)
+			for _, k := range pt.keys {
+				getL(names[j]+"-after", sn, tsF, k)
+			}
+			bgetL(names[j]+"-after", sn, tsF, allKeys)
+			sn.SetSnapshotTS(h.ts1)
+			bgetL(names[j]+"-back", sn, h.ts1, allKeys)
+			sn.SetSnapshotTS(tsF)
+			bgetL(names[j]+"-again", sn, tsF, allKeys)
+		}
+		bgetL("fm-fresh", e.store.GetSnapshot(tsF), tsF, allKeys)
+		e.scanCase(&lines, "fm-fresh", tsF, nil, nil, batchSizes[r.Intn(4)], false, r.Intn(2) == 0, false)
+		break
 	}
 	return lines
 }
